@@ -820,6 +820,13 @@ def oracle_c10(ctor, ops, adms):
                     f"{sp[0]} has shape {sp[1]}, expected {sp[2]} = (number of histograms, number of bins)", where)
         if k in SHAPE_OPS and raised is None:
             last_shape_op = name
+        if ref_ok:
+            got_edges = [float(x) for x in h.bin_edges_]
+            if not same(got_edges, ref.edges):
+                return (f"edges:after-{name}",
+                        f"after {name}{op[1:3] if k in ('ab', 'rb') else ''} the bin edges are {got_edges}; the edges given at "
+                        f"construction with the accepted add_bin / remove_bin calls applied are {ref.edges} "
+                        f"(edge array dtype {h.bin_edges_.dtype})", dict(where, dtype=str(h.bin_edges_.dtype)))
         if k == "se" and raised is None:
             # the stat_err columns hold error_; statistical_error() defines it as the square root of the CURRENT content
             A, E = np.array(h.histograms_, dtype=float), np.array(h.error_, dtype=float)
